@@ -20,8 +20,21 @@ type luaGen struct {
 var luaKeywords = []string{"and", "break", "do", "else", "elseif", "end", "false", "for", "function", "goto", "if", "in", "local", "nil", "not", "or", "repeat", "return", "then", "true", "until", "while"}
 var luaOps = []string{"+", "-", "*", "/", "//", "%", "^", "..", "==", "~=", "<", "<=", ">", ">=", "and", "or", "&", "|", "~", "<<", ">>"}
 
+// LongName is an identifier longer than the fixed-size tables that name-matching code tends to
+// use (126 < 128 < 200 < 256 < 300).
+func LongName(n int) string { return "glong_" + strings.Repeat("abcdefghij", n/10+1)[:n] }
+
 func newLuaGen(r *rand.Rand) *luaGen {
-	return &luaGen{r: r, names: []string{"a", "b", "cfg", "self", "t", "x", "gfoo", "gbar", "util", "M", "obj", "Cls"}}
+	g := &luaGen{r: r, names: []string{"a", "b", "cfg", "self", "t", "x", "gfoo", "gbar", "util", "M", "obj", "Cls"}}
+	if r.Intn(6) == 0 {
+		// one run in six also uses a few very long identifiers
+		for _, n := range []int{126, 128, 200, 300} {
+			if r.Intn(2) == 0 {
+				g.names = append(g.names, LongName(n))
+			}
+		}
+	}
+	return g
 }
 
 func (g *luaGen) name() string { return g.names[g.r.Intn(len(g.names))] }
